@@ -51,6 +51,7 @@ func cmdRun(args []string) {
 	}
 	P.OutDir = *out
 	P.Specs = loadSpecs(findSpecFiles(*repo, *verif))
+	P.bindActions()
 	for _, e := range P.Specs.Errors {
 		fmt.Println("SPEC-ERROR", e)
 	}
